@@ -10,6 +10,7 @@
 import MW.Model.KVSys
 import MW.Spec.KV
 import MW.Lemmas.KvDelete
+import MW.Lemmas.KvIterW
 namespace MW.Props.C11
 open MW MW.KV MW.Model.KV
 
@@ -179,6 +180,20 @@ example :
       [(true, some [97], some [1]), (true, some [98], some [2]), (false, none, none)] ∧
     b.get tx [97] = none := by
   decide
+
+/-- `iter_write_shape` (a characterisation, not a property claim): draining a fresh iterator inside
+    a write transaction yields the committed entries of the range, then the batch's net puts whose
+    key lies in the range (ascending), then stops – the layering of levelIterator over
+    batchIterator exactly as leveldb.go has it. The ledger / handler models that iterate inside
+    write transactions get these semantics, no more. -/
+theorem iter_write_shape (tx : Tx) (hw : tx.readOnly = false) (b : Bucket) (st l : Bytes) :
+    let s' := b.innerKeyForIterator st
+    let l' := if l.length == 0 then bytesPrefixLimit (b.innerKeyForIterator l) else some (b.innerKeyForIterator l)
+    let inR : Bytes → Bool := fun k => ble s' k && (match l' with | none => false | some x => blt k x)
+    runScript b (b.newIterator tx st l) [.all] =
+      (tx.db.range s' l').map (yielded b.pathLen) ++
+        ((tx.b.netPuts []).filter fun e => inR e.1).map (yielded b.pathLen) ++ [(false, none, none)] :=
+  Model.KV.iter_write_shape tx hw b st l
 
 /-! ## 6. THE property -/
 
